@@ -313,6 +313,7 @@ def call_liveness(ctx, progs, res):
         ctx.log(out[-2000:])
         return
     seen = {}
+    entry = {}
     skipped = 0
     for i in range(len(progs)):
         for lvl, fns in sorted((res.get(i) or {}).get("code", {}).items()):
@@ -321,6 +322,7 @@ def call_liveness(ctx, progs, res):
                     skipped += 1
                     continue
                 seen.setdefault(words, (i, lvl, path))
+                entry.setdefault((arity, words), (i, lvl, path))
     keys = list(seen)
     cases = ["[" + "; ".join(k.split()) + "]" for k in keys]
     codes, err = vlib.coq_eval_codes("c02live", "From Aelys Require Import Model.CallLive Model.CallLiveObs.\nOpen Scope N_scope.", "live_code", cases, shard=120)
@@ -348,6 +350,30 @@ def call_liveness(ctx, progs, res):
                       "the callee's frame starts right after the window and overwrites them",
                       {"program": progs[i], "level": int(lvl), "function": path, "call_word": pc, "registers": regs,
                        "bytecode_words": k, "theorem": "Props/C02.v C02_live_register_has_a_path_to_a_read"})
+    # second use of the same analysis: registers (other than the parameters) that are read on some
+    # path from the function's entry before anything wrote them (C02_entry_read_has_a_path)
+    ekeys = list(entry)
+    ecodes, err = vlib.coq_eval_codes("c02entry", "From Aelys Require Import Model.CallLive Model.CallLiveObs.\nOpen Scope N_scope.", "entry_code",
+                                      [f"{a} [{'; '.join(w.split())}]" for a, w in ekeys], shard=120)
+    if err:
+        ctx.broken.append("entry liveness (Model/CallLive.v): model evaluation failed")
+        ctx.log(err[-2000:])
+        return
+    ebad = 0
+    for (a, w), code in zip(ekeys, ecodes):
+        if not code:
+            continue
+        ebad += 1
+        if ebad > 3:
+            continue
+        i, lvl, path = entry[(a, w)]
+        regs = [r for r in range(256) if (code - 1) >> r & 1]
+        ctx.violation("c02:register-read-before-written",
+                      f"at -O{lvl}, function {path} (arity {a}): registers {regs} are read on some path from the entry before anything "
+                      "wrote them: the function computes with what an earlier frame left in its register window",
+                      {"program": progs[i], "level": int(lvl), "function": path, "arity": int(a), "registers": regs,
+                       "bytecode_words": w, "theorem": "Props/C02.v C02_entry_read_has_a_path"})
+    ctx.cov["entry_liveness"] = {"functions_analysed": len(ekeys), "functions_reading_a_register_before_writing_it": ebad}
     ctx.cov["call_liveness"] = {"distinct_functions_analysed": len(keys), "functions_too_long": skipped,
                                 "functions_with_a_live_register_above_a_call_window": bad, "call_instructions_seen": calls}
     ctx.cov["evaluations"] = ctx.cov.get("evaluations", 0) + len(keys)
